@@ -83,3 +83,10 @@ Proof.
   split; [|vm_compute; reflexivity].
   repeat constructor; cbn; intuition discriminate.
 Qed.
+
+Example absent_zero_ex :
+  let ijv := [((0,0),2);((1,1),1);((0,3),2);((2,0),1);((3,3),2)] in
+  (forall x, In x ijv -> r_v x <> nth 1 [2;7;1] 0) /\ (forall x, In x ijv -> 0 <= r_i x).
+Proof.
+  cbv zeta. split; intros x H; cbn in H; repeat (destruct H as [H|H]; [subst x; cbn; lia|]); contradiction.
+Qed.
